@@ -20,3 +20,7 @@ _reg(SchedProp('C08', ['Ea.C08.reset_announces', 'Ea.C08.reset_accepted', 'Ea.C0
 _reg(SchedProp('C09', ['Ea.C09.queue_sorted', 'Ea.C09.paused_never_queued', 'Ea.C09.queue_nodup',
                        'Ea.C09.insort_keeps_sorted']))
 _reg(SchedProp('C10', ['Ea.C10.callbacks_only_log', 'Ea.C10.wakeup_keeps_invariant', 'Ea.C10.trigger_failure_no_reexec']))
+
+from props_prod import ProdProp  # noqa: E402
+
+_reg(ProdProp('C04', ['Ea.C04.getNext_gt', 'Ea.C04.query_gt', 'Ea.C04.loop_bound_matches']))
